@@ -276,17 +276,30 @@ def run(cx, rep):
             # helper body counts as lying wherever the call lies
             nodes = []
             clone_site = {}
-            def add_nodes(root, via, depth):
+            clone_root = {}    # node of a helper clone -> [(clone body, call node it was cloned for)] innermost first
+            def add_nodes(root, via, depth, roots=()):
                 for x_ in walk(root):
                     nodes.append(x_)
                     if via is not None:
                         clone_site[id(x_)] = via
+                        clone_root[id(x_)] = roots
                     if depth > 0 and x_["type"] == "CallExpression":
                         r_ = tsast.resolve_local_call(mod, cname, x_)
                         if r_ is not None:
                             body__, _sub = tsast.inline_clone(r_[0], x_)
-                            add_nodes(body__, via if via is not None else x_, depth - 1)
-            add_nodes(fn, None, 2)
+                            add_nodes(body__, via if via is not None else x_, depth - 1, ((body__, x_),) + tuple(roots))
+            add_nodes(fn, None, 3)
+
+            def atoms_at(site_):
+                """what is known where `site_` runs: inside the helper(s) it was cloned from, and at the call(s) that
+                lead there"""
+                ka_ = {}
+                cur = site_
+                for body__, call__ in clone_root.get(id(site_), ()):
+                    ka_.update(ts_common.known_atoms({"type": "FunctionExpression", "params": [], "body": body__}, cur))
+                    cur = call__
+                ka_.update(ts_common.known_atoms(fn, cur if id(site_) in clone_root else site_))
+                return ka_
 
             def contains(outer_, site_):
                 if any(x_ is site_ for x_ in walk(outer_)):
@@ -332,6 +345,8 @@ def run(cx, rep):
                     if mc and s(mc[0]) == "%s.key" % pvar and len(mc[2]) >= 2:
                         # the numeric reading of a property name (`Number(k)`, `+k`) is a question about the same key
                         ke = unparen(mc[2][1])
+                        if ke.get("type") == "Identifier" and ke["value"] in al_all and unparen(al_all[ke["value"]]).get("type") in ("CallExpression", "UnaryExpression"):
+                            ke = unparen(al_all[ke["value"]])       # `const numericName = Number(name)`
                         if ke.get("type") == "CallExpression" and s(ke["callee"]) in ("Number", "parseFloat", "Number.parseFloat") and ke["arguments"]:
                             ke = unparen(ke["arguments"][0]["expression"])
                         elif ke.get("type") == "UnaryExpression" and ke["operator"] == "+":
@@ -339,12 +354,16 @@ def run(cx, rep):
                         keys_used.add(s(ke))
                 for key in sorted(keys_used):
                     n_ix += 1
-                    ka = ts_common.known_atoms(fn, clone_site.get(id(site), site))
+                    ka = atoms_at(site)
                     ok = any(v_ is False and is_declared_test(a_, key) for a_, v_ in ka.items())
                     if not ok:
                         # the key ranges over a filtered list: an enclosing for-of / iteration callback binds it
                         for outer in nodes:
-                            if id(outer) in clone_site or not contains(outer, site):
+                            if id(outer) in clone_site:
+                                # a loop inside the same helper clone: it must contain the site itself
+                                if not any(x_ is site for x_ in walk(outer)):
+                                    continue
+                            elif not contains(outer, site):
                                 continue
                             if outer["type"] == "ForOfStatement" and outer["left"]["type"] == "VariableDeclaration" and outer["left"]["declarations"][0]["id"].get("value") == key:
                                 ok = ok or filtered_source(outer["right"])
@@ -391,6 +410,9 @@ def run(cx, rep):
     # ---------------------------------------------------------------- C03.13
     rep.rule("C03.13", "no decision rests on comparing the number of input keys with the number of declared keys")
     ts_common.key_count_rule(cx, rep, "C03.13")
+    # ---------------------------------------------------------------- C03.15
+    rep.rule("C03.15", "a throw of parseAfterValidation on non-object member results is backed by validate() rejecting non-objects")
+    parse_throw_guard_rule(fam, mod, rep, "C03.15")
     # ---------------------------------------------------------------- C03.14
     rep.rule("C03.14", "validate / parseAfterValidation / reportDecodeError keep no state on the validator instances")
     from rules.c16 import instance_state_rule
@@ -572,3 +594,34 @@ def null_deref_rule(fam, mod, rep, rid, methods=("validate", "reportDecodeError"
                        "%s.%s uses its input (%s) where it may still be %s: the method throws a TypeError for that value instead of answering" % (cname, mname, what, " or ".join(sorted(allowed & {"undefined", "null"})) or "a primitive"),
                        mod.loc(node), sample={"class": cname, "method": mname, "use": what, "input_may_be": sorted(allowed)})
     rep.floor(rid, "uses of the raw input that need a nullness guard", n, 10)
+
+
+def parse_throw_guard_rule(fam, mod, rep, rid):
+    """parseAfterValidation() may assume what validate() established.  A `throw` in it that fires when a member's
+    result is not an object (`typeof parsed !== "object"`) is unreachable only as long as validate() itself rejects
+    every non-object input; without that test an intersection of non-object types whose members all accept a string
+    validates it, and safeParse / parse then throw the internal error instead of answering.  Decided: a class whose
+    parseAfterValidation throws under a `typeof .. "object"` test has a validate() that tests `typeof <input> ===
+    "object"` (the same atom the reporter mirror of C12.2 uses)."""
+    from rules.c12 import atoms
+    n = 0
+    for cname in sorted(fam.concrete()):
+        _, p = fam.resolve_method(cname, "parseAfterValidation")
+        _, v = fam.resolve_method(cname, "validate")
+        if not p or not v or p["function"].get("body") is None or v["function"].get("body") is None:
+            continue
+        pf = tsast.flatten_fn(mod, cname, p["function"])
+        guarded = []
+        for i in walk(pf):
+            if i["type"] == "IfStatement" and "typeof" in s(i["test"]) and '"object"' in s(i["test"]) and any(t_["type"] == "ThrowStatement" for t_ in walk(i["consequent"])):
+                guarded.append(i)
+        if not guarded:
+            continue
+        n += 1
+        vf = tsast.flatten_fn(mod, cname, v["function"])
+        vin = ts_common.fn_params(vf)[1]
+        av = atoms(vf, vin)
+        rep.ob(rid, "%s/validate-rejects-non-objects" % cname, ("typeof", "object") in av,
+               "%s.parseAfterValidation throws when a member's result is not an object, but %s.validate no longer rejects non-object inputs: for an intersection of non-object types whose members all accept the value, validate() says true and safeParse / parse throw an internal error" % (cname, cname),
+               mod.loc(guarded[0]), sample={"class": cname, "validate_tests": sorted(map(str, av))})
+    rep.floor(rid, "classes whose parse step throws on a non-object member result", n, 1)
